@@ -405,7 +405,7 @@ private def history : List Ev :=
     .item 0 (call 1 (.returns .ok)) false .other,
     .item 2 okShake false .other,
     .item 2 (call 2 (.raises .generic false)) false .other,          -- unserialisable exception: reported, stays
-    .item 2 (.msg { type := 4, serId := 42, seq := 1, body := .undecodable }) true .other,  -- unknown serializer, peer gone
+    .item 2 (.msg { type := 4, serId := 42, seq := 1, body := .undecodable false }) true .other,  -- unknown serializer, peer gone
     .connect 3, .item 3 .cut false .other,                           -- disconnect during the handshake
     .item 0 (call 3 (.returns .ok)) false .other,
     .item 4 okShake true .other ]                                    -- handshake, gone before the answer
